@@ -524,6 +524,17 @@ def save_replay(ctx, name, obj):
     obj.setdefault("seed", ctx.seed)
     obj.setdefault("tier", ctx.tier)
     obj.setdefault("replay_cmd", "bin/check %s --replay %s" % (ctx.prop, p))
+    # files an op names (configuration files written into the run's scratch directory) travel with the replay
+    files = {}
+    for l in obj.get("ops") or []:
+        for tok in str(l).split():
+            if tok.startswith(ctx.scratch + os.sep) and os.path.isfile(tok) and os.path.getsize(tok) < (1 << 20):
+                try:
+                    files[os.path.basename(tok)] = open(tok, encoding="utf-8", errors="surrogateescape").read()
+                except OSError:
+                    pass
+    if files:
+        obj["files"] = files
     with open(p, "w") as f:
         json.dump(obj, f, indent=1)
     return p
@@ -739,6 +750,7 @@ class Differential:
                 rc2, _, oi2, om2 = self.run_both([small])
                 violation(ctx, label + "-oracle", {
                     "what": "property oracle fails on the implementation's own outputs",
+                    "oracle_fn": "%s:%s" % (getattr(oracle, "__module__", ""), getattr(oracle, "__qualname__", "")),
                     "oracle_failures": oracle(small, oi2)[:5],
                     "ops": small, "impl_outputs": oi2, "model_outputs": om2,
                     "original_episode_len": len(ep)})
@@ -755,6 +767,42 @@ class Differential:
                     "impl_output": oi2[d2] if d2 is not None and d2 < len(oi2) else None,
                     "model_output": om2[d2] if d2 is not None and d2 < len(om2) else None,
                     "ops": small, "impl_outputs": oi2, "model_outputs": om2}, no_input=True)
+        return reported
+
+    def check_oracle_only(self, episodes, oracle, label):
+        """Episodes judged by the property oracle alone (no model prediction exists for them: the model has no
+        counterpart of the configuration they run under). Returns the number of failing episodes reported."""
+        ctx = self.ctx
+        rc, log, impl, _ = self.run_both(episodes, want_model=False)
+        nops = sum(len(op_lines(e)) for e in episodes)
+        if rc != 0 or len(impl) != nops:
+            violation(ctx, label + "-impl-crash", {"what": "implementation run ended early (exit %d) after %d/%d ops" % (rc, len(impl), nops),
+                                                   "log_tail": log[-3000:]}, no_input=False)
+            return 1
+        reported = 0
+        for ep, oi in zip(episodes, self.split(episodes, impl)):
+            ofail = split_known(ctx, oracle(ep, oi))
+            if not ofail:
+                continue
+            if self.confirm:
+                again = False
+                for _ in range(self.confirm):
+                    rcc, _, oic, _ = self.run_both([ep], want_model=False, timeout=min(self.timeout, 300))
+                    if rcc != 0 or len(oic) != len(op_lines(ep)) or split_known(ctx, oracle(ep, oic)):
+                        again = True
+                        break
+                if not again:
+                    ctx.notes.append("%s: an oracle failure did not reproduce in %d re-runs of the same episode: %s" % (label, self.confirm, str(ofail[0])[:160]))
+                    continue
+            reported += 1
+            if reported <= 3:
+                small = self.shrink(ep, lambda e, o: bool(split_known(ctx, oracle(e, o))))
+                rc2, _, oi2, _ = self.run_both([small], want_model=False)
+                violation(ctx, label + "-oracle", {
+                    "what": "property oracle fails on the implementation's own outputs",
+                    "oracle_fn": "%s:%s" % (getattr(oracle, "__module__", ""), getattr(oracle, "__qualname__", "")),
+                    "oracle_failures": (oracle(small, oi2) or ofail)[:5], "ops": small, "impl_outputs": oi2,
+                    "original_episode_len": len(ep)})
         return reported
 
     def shrink(self, ep, pred):
